@@ -125,11 +125,29 @@ def _strip_comments(line: str, comment_markers: tuple[str, ...] = ("#", "//")) -
         Line with comments removed
     """
     # "//" is floor division in Python and "#" a private-name prefix in JavaScript: cut only at the language's own marker
-    for marker in comment_markers:
-        if marker in line:
-            line = line[: line.index(marker)]
+    position = _first_marker_outside_strings(line, comment_markers)
+    return line if position is None else line[:position]
 
-    return line
+
+def _first_marker_outside_strings(line: str, comment_markers: tuple[str, ...]) -> int | None:
+    """Find the first comment marker that is not inside a string literal ("#fff", "http://x")."""
+    if not any(marker in line for marker in comment_markers):
+        return None
+    quote: str | None = None
+    index = 0
+    while index < len(line):
+        char = line[index]
+        if quote is not None:
+            if char == "\\":
+                index += 1  # skip the escaped character
+            elif char == quote:
+                quote = None
+        elif char in "\"'`":
+            quote = char
+        elif line.startswith(comment_markers, index):
+            return index
+        index += 1
+    return None
 
 
 def _is_import_statement(line: str) -> bool:
